@@ -14,6 +14,7 @@ PROP = dict(
           "resources/revert reasons, state updates with every section populated or empty, Sierra and Cairo-0 classes; block numbers around CBOR width "
           "boundaries; memory and Pebble; Sierra program / CASM bytecode sizes around every CBOR header width, 2^16, 2^17 and up to 300001 felts "
           "with every limb width class of the felt codec (TestPropClassSizesRoundTrip); blocks of 255..2049 (thorough ..10007) transactions around powers of two, not multiples of 8, with every element of every bulk accessor compared (TestPropBigBlocksRoundTrip). Non-trivial = mixed-kind block, empty block, or nil optional header field; distinct = SHA-256 of block ids and shapes. "
+          "Reorgs (TestPropReorgReadBack): prefix + fork stored on one long-lived Blockchain, whole Reader API read, fork reverted, another fork re-including a third of the abandoned transactions (same hash, other block / index, new receipt) stored, read again (2-3 forks); the object must answer like a fresh node holding only the current chain for every block / tx / L1-message hash ever seen. "
           "Overlapping lifetimes (TestPropOverlappingLifetimes, TestRaceConcurrentBlocks): a case is a script over 2-6 (thorough 2-10) blocks of 0-20 (thorough 0-257) "
           "transactions on ONE store (memory, 35% Pebble v2): groups of 1-4 blocks whose encodable forms (NewBlockTransactions / NewBlockTransactionsFromIterators / "
           "BlockTransactionsSerializer.Marshal, encoder.Marshal of header, state update, commitments and of the class declaration a third of the blocks carries (Sierra / Cairo-0) - "
